@@ -3,7 +3,7 @@ CONSTANTS
   GridSel = "g2"
   UnOps = {"+", "-", "~", "!"}
   CastTypes = {"B", "sc", "us", "u", "l"}
-  BinOps = {"+", "-", "*", "/", "<<", ">>", "&", "<", "==", "&&"}
+  BinOps = {"+", "/", "<<", ">>", "&", "<", "&&"}
   UseCond = FALSE
   LvTypes = {}
   AsgOps = {"=", "+=", "-=", "*=", "/=", "%=", "<<=", ">>=", "&=", "|=", "^="}
